@@ -51,6 +51,8 @@ def coq_op(op):
         return "ORawFrame %s %s %s" % (coq_z(op[1]), coq_z(op[2]), coq_z(op[3]))
     if n == "rawbytes":
         return "ORawBytes %s" % coq_list([coq_z(b) for b in op[1]])
+    if n == "rawrepeat":
+        return "ORawBytes %s" % coq_list([coq_z(b) for b in list(op[1]) * op[2]])
     if n == "rawclose":
         return "ORawClose"
     raise ValueError(op)
@@ -421,6 +423,95 @@ def gen_flood_case(rng):
     return {"mode": "raw", "cfg": [[1, 0, 0, 1], cfgB], "caps": caps, "ops": ops, "kind": "raw-flood"}
 
 
+def frame_bytes(hdr, payload_len=None):
+    b = [hdr & 255, hdr >> 8]
+    if payload_len is not None:
+        b += [payload_len & 255, payload_len >> 8] + [(p * 7 + 3) % 256 for p in range(payload_len)]
+    return b
+
+
+def gen_ctlflood_case(rng, nframes):
+    """control-frame flood: a peer that finished the handshake pushes N >> read_frame_count OPEN / CLOSE frames
+    (variants: mixed with DATA of size 0 / 1) at a stream that nobody drains."""
+    k = rng.range(3, 12)
+    cfgB = [100, rng.choice([1000, 5000, 100000]), k, 100]
+    capl = [[0, 2], [1, 1]]
+    caps = [{"accept": capl, "connect": capl}, {"accept": capl, "connect": capl}]
+    target = rng.choice(["unaccepted", "unconnected", "held-by-reader"])
+    ops = []
+    if target == "unconnected":
+        sk, idv = 0, rng.below(3)                 # frames of the peer's ACCEPT ends go to B's connect streams, which B never opens
+    else:
+        sk, idv = SK_CONNECT, rng.below(3)        # B's accept streams
+    if target == "held-by-reader":
+        idv = 0
+        ops.append(["open", 1, 0, 0, 1])          # B's application accepts on capability 0 and then never reads
+    ops.append(["rawframe", raw_hdr(FK_OPEN, sk, idv), -1, 0])     # recv_open takes this one; everything after it is queued
+    pattern = rng.choice(["open", "open-close", "close", "close-open-data0", "open-data1"])
+    o_, c_ = frame_bytes(raw_hdr(FK_OPEN, sk, idv)), frame_bytes(raw_hdr(FK_CLOSE, sk, idv))
+    d0, d1 = frame_bytes(raw_hdr(FK_DATA, sk, idv), 0), frame_bytes(raw_hdr(FK_DATA, sk, idv), 1)
+    unit = {"open": [o_], "open-close": [o_, c_], "close": [c_], "close-open-data0": [c_, o_, d0], "open-data1": [o_, d1]}[pattern]
+    reps = max(1, nframes // len(unit))
+    ops.append(["rawrepeat", [b for f in unit for b in f], reps])
+    return {"mode": "raw", "cfg": [[1, 0, 0, 1], cfgB], "caps": caps, "ops": ops, "kind": "raw-ctlflood",
+            "flood": {"target": target, "pattern": pattern, "unit": [len(f) for f in unit], "reps": reps, "k": k,
+                      "holds": [0 if len(f) == 4 else 1 for f in unit]}}
+
+
+def pred_ctlflood(c, o):
+    """frames the multiplexer has taken off the transport while nobody drains the stream: at most
+    read_frame_count held + the one in hand (its header is read before the permit is awaited)."""
+    if "panic" in o:
+        return [{"failed": "the multiplexer panicked: " + o["panic"]}]
+    fl = c["flood"]
+    k = fl["k"]
+    obs = o["obs"]
+    if len(obs) < len(c["ops"]) + 1:
+        return []            # the run ended early (reported elsewhere)
+    pulled = obs[-1][4]
+    # bytes before the flood: the initial OPEN (consumed by recv_open, holds nothing afterwards)
+    pos = 2
+    taken_holding, taken = 0, 0
+    sent = fl["reps"] * len(fl["unit"])
+    for r in range(fl["reps"]):
+        for ln, holds in zip(fl["unit"], fl["holds"]):
+            if pos < pulled:
+                taken += 1
+                taken_holding += holds
+            pos += ln
+        if pos >= pulled:
+            break
+    if taken_holding > k + 1:
+        return [{"failed": f"peer pushed {sent} frames ({fl['pattern']}) at a stream nobody drains ({fl['target']}); the multiplexer took "
+                           f"{taken_holding} queued frames off the transport, read_frame_count = {k} (allowed: {k} held + 1 in hand)",
+                 "frames_pushed": sent, "frames_taken": taken_holding, "limit": k}]
+    return []
+
+
+def flood_runner(seed, tier):
+    """control-frame flood family on the real Mux, predicate only (used by gen/c10.py as well)."""
+    rng = Rng(seed ^ 0xC0F100D)
+    n = 12 if tier == "quick" else 60
+    cases = [gen_ctlflood_case(rng, 5000) for _ in range(n)]
+    ok, out = common.cargo_build(["mux"], "dev")
+    if not ok:
+        raise common.MachineryError("cargo build of harness bin mux failed: " + out[-2000:])
+    outs = common.run_impl("mux", cases, "dev", timeout=600)
+    failures, taken = [], []
+    for c, o in zip(cases, outs):
+        if "crash" in o or "skipped" in o:
+            raise common.MachineryError(f"harness mux crashed on a control-frame flood case: {o}")
+        for b in pred_ctlflood(c, o):
+            failures.append({"what": "mux: " + b["failed"],
+                             "failing_input": {"runner": "c14-ctlflood", "case": {k: c[k] for k in c if k != "kind"}, "kind": c["kind"], **b}})
+        if "obs" in o:
+            taken.append(o["obs"][-1][4])
+    return {"failures": failures,
+            "coverage": {"cases": len(cases), "frames_pushed_per_case": 5000,
+                         "patterns": sorted({c["flood"]["pattern"] for c in cases}), "targets": sorted({c["flood"]["target"] for c in cases}),
+                         "read_frame_count_range": [3, 12], "max_bytes_pulled": max(taken) if taken else 0}}
+
+
 def corpus_cases():
     capl = [[0, 1]]
     one = [{"accept": capl, "connect": capl}, {"accept": capl, "connect": capl}]
@@ -633,6 +724,8 @@ def predicate(c, o):
     bad = pred_script(c, o)
     if c["kind"].startswith("raw-flood"):
         bad += pred_flood(c, o)
+    if c["kind"].startswith("raw-ctlflood"):
+        bad += pred_ctlflood(c, o)
     if c["kind"].startswith("raw-bad") and "obs" in o:
         # applies when every earlier frame was well formed and the multiplexer got as far as the bad header
         sent, aligned, reached = 0, True, None
@@ -664,11 +757,12 @@ def build_cases(rng, tier):
         cases += json.load(open(p))
     cases += gen_header_cases(rng, 0)
     cases += gen_verify_cases(rng, 40 if q else 400)
-    npair, nbig, nraw, nflood, nops = (90, 5, 60, 30, 40) if q else (1500, 200, 1000, 400, 70)
+    npair, nbig, nraw, nflood, nops = (70, 4, 50, 25, 40) if q else (1500, 200, 1000, 400, 70)
     cases += [gen_pair_case(rng, rng.range(10, nops), False) for _ in range(npair)]
     cases += [gen_pair_case(rng, rng.range(10, nops), True) for _ in range(nbig)]
     cases += [gen_raw_case(rng, rng.range(5, nops)) for _ in range(nraw)]
     cases += [gen_flood_case(rng) for _ in range(nflood)]
+    cases += [gen_ctlflood_case(rng, 2000 if q else 5000) for _ in range(10 if q else 80)]
     return cases
 
 
@@ -745,7 +839,7 @@ def run(rep):
     cov.update({
         "obligations": po["obligations"] + 1,
         "discharged": po["discharged"] + (0 if mm else 1),
-        "checker_cmd": "./coqmake theories/Properties/C14.vo (make) + coqc on generated build/cases/C14/cases_*.v (vm_compute of Model.Mux.run_case)",
+        "checker_cmd": "./coqmake theories/Properties/C14.vo (make; Proofs/MuxProofs.v, MuxRefine.v, MuxControl.v) + coqc on generated build/cases/C14/cases_*.v (vm_compute of Model.Mux.run_case)",
         "trusted_base": common.standard_trusted_base([
             "H-ATOM: tokio channels, semaphores, Notify, oneshot and the ExclusiveLock hand-over are atomic transitions of the model; scheduling is the sequential script with a drain to quiescence after every operation",
             "the transport in the model and in the harness (tokio::io::duplex with a 2^30 byte buffer) never exerts back pressure on the writer",
@@ -764,15 +858,25 @@ def run(rep):
                                             "application never reads; header: all 2^16 values + 384 (kind,kind,id) triples; verify: boundary configs"},
         "samples": [{"case": cases[i], "impl": impl_obs(cases[i], outs[i]), "model_obs": samp.get(i)} for i in sample_ids if i < len(cases)],
         "correspondence_mismatches": len(mm), "predicate_failures": len(pred_fail),
-        "partial": "Proved (closed, no axioms): header layout for all 2^16 values; totality of the frame-kind match; both sides compute the same id->capability table for all "
-                   "limit maps; streams per capability = min(local, peer); verify implies ids fit 13 bits; routing of the dispatcher and Protocol error for foreign ids / unassigned kind; "
-                   "FIFO use of the transport; flow control (held payload <= read_buffer_size, held frames <= read_frame_count, frames <= read_frame_size) against every byte sequence and every "
-                   "consumption order, on an LTS built from the model's own dispatcher step function; read_exact is order/loss/duplication free and reports EOS only after CLOSE; frames after a "
-                   "CLOSE are invisible to the current incarnation; write_all framing; inside an endpoint a delivered frame and any step of one reusable stream leave every other stream's state untouched. NOT proved: the composition of these component theorems through the scheduler [settle] for all scripts "
-                   "(C14_full in Properties/C14.v: end-to-end byte conservation between paired slots, the refinement of the endpoint's stream state machines onto the flow-control LTS, "
-                   "at-most-one transient stream per reusable stream); that part rests on the differential correspondence and the predicates. Head-of-line blocking is documented behaviour, "
-                   "not claimed absent. write_frame_size = 0 (write_all spins) and read_frame_size = 0 (dispatcher spins on the first DATA frame) are accepted by Config::verify and excluded "
-                   "from the generators; back pressure of a bounded transport on the writer is not modelled.",
+        "partial": "Proved (closed, no axioms). Components: header layout for all 2^16 values; totality of the frame-kind match; both sides compute the same "
+                   "id->capability table for all limit maps; streams per capability = min(local, peer); verify implies ids fit 13 bits; routing of the dispatcher and "
+                   "Protocol error for foreign ids / unassigned kind; FIFO use of the transport; flow control on the LTS built from the model's dispatcher step; read_exact "
+                   "order/loss/duplication free, EOS only after CLOSE, frames after a CLOSE invisible; write_all framing; isolation inside an endpoint. "
+                   "Composed system (every reachable quiescent state of the two-sided model, or of one endpoint against any raw peer byte sequence, under any application script): "
+                   "(1) each endpoint refines the flow-control LTS, hence held payload <= read_buffer_size, held frames <= read_frame_count, frames <= read_frame_size for the executable "
+                   "endpoint model (C14_endpoint_refines, C14_endpoint_buffer_bounded[_A]); (2) at most one transient stream per reusable stream and open transient streams per capability "
+                   "<= min(local limit, peer limit) (C14_one_transient_per_stream[_A], C14_open_streams_bounded[_A]; invariant K of Proofs/MuxControl.v: unique handles, FIFO queues hold only "
+                   "idle streams of their capability, hand-over only of a stream no handle holds). "
+                   "NOT proved (C14_full = C14_remaining_isolation_and_order in Properties/C14.v): (3) end-to-end byte conservation between paired handles of the two-sided system: the bytes a "
+                   "reader obtained are a prefix of the bytes its counterpart wrote, complete at end-of-stream. What is missing is the composition of the proved per-component lemmas across "
+                   "the byte-level wire (serialise/parse of interleaved frames, chunking by the dispatcher) and across OPEN/CLOSE incarnation boundaries (recv_open discard), which needs ghost "
+                   "histories of written/read bytes per handle; that part rests on the differential correspondence and on the predicates (single-source contiguous reads, symmetric pairing, "
+                   "EOS only after close and complete). Scheduler: theorems quantify over the settle-to-quiescence scheduler of the model (the one the correspondence uses), tokio primitives "
+                   "atomic (H-ATOM); other interleavings of the real runtime are covered only as far as the quiescent observations agree. Head-of-line blocking is documented behaviour, "
+                   "not claimed absent; back pressure of a bounded transport on the writer is not modelled. "
+                   "OBSERVATION (no change in /repo): write_frame_size = 0 and read_frame_size = 0 are accepted by Config::verify; with write_frame_size = 0 WriteStream::write_all never "
+                   "terminates (spins without yielding), with read_frame_size = 0 the dispatcher loops forever on the first non-empty DATA frame producing empty chunks; both values are "
+                   "excluded from the generators and from the harness runs; the flow-control theorems only assume limits >= 0.",
     })
     rep.assumptions += ["H-ATOM (DESIGN.md 2.3): atomicity of tokio channel / semaphore / oneshot / Notify operations and FIFO fairness of the StreamQueue mutex and bounded channel"]
 
